@@ -105,7 +105,7 @@ def h_manager(sym, rungs=None, W=2, E=10, mode="min", max_fail=3, concrete_metri
 
 
 def h_scheduler(sym, geometric=None, rungs=None, W=2, E=9, mode="min", max_fail=1, max_t=4, ckpt=True, dehb=False, brackets=None,
-                concrete_metrics=False):
+                concrete_metrics=False, straggler=None):
     """scheduler API level: never blocks, pauses exactly at milestones, resumes only paused trials to
     the next level, failed jobs do not block the bracket"""
     from syne_tune.optimizer.schedulers.synchronous.hyperband_impl import SynchronousGeometricHyperbandScheduler
@@ -129,13 +129,31 @@ def h_scheduler(sym, geometric=None, rungs=None, W=2, E=9, mode="min", max_fail=
     trials, level, running, paused, failed, target = {}, {}, [], set(), set(), {}
     nfail = 0
     idle_suggests = 0
+    # straggler schedules (long runs with several open brackets): workers report first in first out, except ONE job -- the
+    # straggler-th one started, a solver variable -- which is held back until `delay` (solver variable) other reports came in
+    n_started = 0
+    start_no, others_since = {}, {}
+    if straggler:
+        sg = sym.choice("straggler", straggler[0])
+        delay = sym.choice("delay", straggler[1])
     for step in range(E):
-        opts = [("report", t) for t in running]
-        if nfail < max_fail:
-            opts += [("fail", t) for t in running]
-        if len(running) < W:
-            opts.append(("suggest", None))
-        kind, tid = opts[sym.choice("c%d" % step, len(opts))]
+        if straggler:
+            free = [t for t in running if not (start_no[t] == sg and others_since[t] < delay)]
+            if len(running) < W:
+                kind, tid = "suggest", None
+            else:
+                kind, tid = "report", (free[0] if free else running[0])
+        else:
+            opts = [("report", t) for t in running]
+            if nfail < max_fail:
+                opts += [("fail", t) for t in running]
+            if len(running) < W:
+                opts.append(("suggest", None))
+            kind, tid = opts[sym.choice("c%d" % step, len(opts))]
+        if kind == "report":
+            for t in running:
+                if t != tid:
+                    others_since[t] = others_since.get(t, 0) + 1
         if kind == "suggest":
             nid = len(trials)
             try:
@@ -168,6 +186,9 @@ def h_scheduler(sym, geometric=None, rungs=None, W=2, E=9, mode="min", max_fail=
                 sym.goal("promotion")
                 sym.event("resume t%d to %d" % (tid, target[tid]))
             running.append(tid)
+            start_no[tid] = n_started
+            others_since[tid] = 0
+            n_started += 1
         elif kind == "report":
             level[tid] += 1
             r = level[tid]
@@ -262,6 +283,12 @@ def obligations(tier):
                   goals=("fewer-brackets-than-rungs", "end"), budget_s=300))
     obs.append(Ob("C05.d[dehb,brackets=1,max_t=4,W=1]", "props.c05:h_scheduler", dict(geometric=[1, 2], W=1, E=40, mode="min", max_fail=0, max_t=4, dehb=True, brackets=1, concrete_metrics=True),
                   bounds=dict(grace=1, rf=2, max_t=4, brackets=1, W=1, events=40, metrics="concrete table"), goals=("end",), budget_s=600))
+    # DEHB with two brackets per iteration and three workers: a straggler in the first bracket's base rung lets the SECOND bracket
+    # complete a rung first; the first bracket must still resume exactly its own best trials
+    obs.append(Ob("C05.d[dehb,brackets=2,max_t=4,W=3,straggler]", "props.c05:h_scheduler",
+                  dict(geometric=[1, 2], W=3, E=34, mode="min", max_fail=0, max_t=4, dehb=True, brackets=2, concrete_metrics=True, straggler=[8, 7]),
+                  bounds=dict(grace=1, rf=2, max_t=4, brackets=2, W=3, events=34, metrics="concrete table", schedule="FIFO with one straggler: which job (1st..8th) and for how many reports (0..6) are symbolic"),
+                  goals=("promotion", "end"), split=(("straggler", tuple(range(8))),), budget_s=600))
     if not quick:
         obs.append(Ob("C05.c[manager,W=3]", "props.c05:h_manager", dict(rungs=R1, W=3, E=11, mode="min", max_fail=2), bounds=dict(rungs=R1, W=3, events=11),
                       goals=("promotion", "end"), split=(("c1", (0, 1)), ("c2", (0, 1, 2)), ("c3", (0, 1, 2, 3))), budget_s=3000, may_be_incomplete=True))
